@@ -47,11 +47,11 @@ def main():
         if not v.get("confirmed"):
             print("not confirmed:", name, v)
             continue
-        m = re.match(r"(C\d\d)(b?)_(\d)$", name)
+        m = re.match(r"(C\d\d)([bc]?)_(\d)$", name)
         if not m:
             continue
         pid, rnd, k = m.groups()
-        src = os.path.join(WT, pid, "mutants2" if rnd else "mutants", k)
+        src = os.path.join(WT, pid, {"": "mutants", "b": "mutants2", "c": "mutants3"}[rnd], k)
         if not os.path.isdir(src):
             print("missing source dir", src)
             continue
@@ -66,7 +66,7 @@ def main():
         det = checks.get(name, {})
         meta = {
             "breaks_property": pid,
-            "origin": "independent sub-agent given only the property text and a scratch worktree" + (" (round 2: told to avoid the code sites of the round-1 changes for this property)" if rnd else ""),
+            "origin": "independent sub-agent given only the property text and a scratch worktree" + {"": "", "b": " (round 2: told to avoid the code sites of the round-1 changes for this property)", "c": " (round 3: shown the earlier changes for this property and told to find new sites, mechanisms, configurations and boundary values)"}[rnd],
             "summary": agent_meta.get("summary", ""),
             "needs_to_manifest": agent_meta.get("needs_to_manifest", ""),
             "confirmed_by_me": {
